@@ -277,8 +277,9 @@ func c15Split(hs []string) (inv []string, io []string) {
 }
 
 type c15Op struct {
-	Op string   `json:"op"` // use | unuse | call | callS | resume
+	Op string   `json:"op"` // use | unuse | call | callS | resume | race
 	Hs []string `json:"hs,omitempty"`
+	Un []string `json:"un,omitempty"` // race: removed while Hs are added
 	At string   `json:"at,omitempty"`
 }
 
@@ -453,6 +454,22 @@ func c15Run(t *tr.Writer, id int, c c15Case) {
 			} else {
 				side.unuse(op.Hs)
 			}
+			t.Emit(tr.Rec{"ev": "opE"})
+		case "race":
+			// Use(op.Hs) and Unuse(op.Un) at the same time on the same managers; the handlers are disjoint, so
+			// the two operations commute and are logged one after the other
+			var wg sync.WaitGroup
+			gatec := make(chan struct{})
+			wg.Add(2)
+			go func() { defer wg.Done(); <-gatec; side.use(op.Hs) }()
+			go func() { defer wg.Done(); <-gatec; side.unuse(op.Un) }()
+			close(gatec)
+			wg.Wait()
+			inv, io := c15Split(op.Un)
+			t.Emit(tr.Rec{"ev": "opB", "kind": "unuse", "invoke": inv, "io": io})
+			t.Emit(tr.Rec{"ev": "opE"})
+			inv, io = c15Split(op.Hs)
+			t.Emit(tr.Rec{"ev": "opB", "kind": "use", "invoke": inv, "io": io})
 			t.Emit(tr.Rec{"ev": "opE"})
 		case "call":
 			start("")
@@ -651,9 +668,30 @@ func runC15(a Args) tr.Summary {
 			sum.Samples = append(sum.Samples, c)
 		}
 	}
+	// Use racing with Unuse on the same managers (disjoint handlers), a call after every round
+	nRace := 2
+	if a.Tier == "thorough" {
+		nRace = 8
+	}
+	pairs := [][2][]string{{{"i1"}, {"i2"}}, {{"o1"}, {"o2"}}, {{"P"}, {"i3", "o2"}}, {{"i1", "o1"}, {"Q", "o2"}}}
+	for i := 0; i < nRace*2; i++ {
+		pr := pairs[i%len(pairs)]
+		ops := []c15Op{{Op: "use", Hs: pr[0]}, {Op: "call"}}
+		for r := 0; r < 400; r++ {
+			if r%2 == 0 {
+				ops = append(ops, c15Op{Op: "race", Hs: pr[1], Un: pr[0]}, c15Op{Op: "call"})
+			} else {
+				ops = append(ops, c15Op{Op: "race", Hs: pr[0], Un: pr[1]}, c15Op{Op: "call"})
+			}
+		}
+		id++
+		c := c15Case{Side: sides[i%2], Beh: c15Behs[0], Ops: ops}
+		c15Run(t, id, c)
+		note(c)
+	}
 	sum.Cases = id
 	sum.Events = t.Lines
 	sum.Nontrivial = len(nontrivial)
-	sum.Extra = tr.Rec{"exhaustive_len": exLen, "exhaustive_cases": exhaustiveCases, "random_cases": nRandom, "concurrent_cases": nConc, "alphabet": len(alpha)}
+	sum.Extra = tr.Rec{"race_cases": nRace * 2, "exhaustive_len": exLen, "exhaustive_cases": exhaustiveCases, "random_cases": nRandom, "concurrent_cases": nConc, "alphabet": len(alpha)}
 	return sum
 }
